@@ -552,9 +552,9 @@ def run(ctx):
         for i, cp in enumerate(corpus):
             runs.append(("corpus%d" % i, "-replay %s" % cp))
         if quick:
-            runs.append(("fresh", "-seed %d -stores 14 -cases 70 -engines mem,pebble -srv 1 -srvbig 5600 -big 5003 -exh 7 -conc 2000" % ctx.seed))
+            runs.append(("fresh", "-seed %d -stores 14 -cases 70 -engines mem,pebble -srv 1 -srvbig 5600 -big 5003 -longrun 6500 -exh 7 -conc 2000" % ctx.seed))
         else:
-            runs.append(("fresh", "-seed %d -stores 1200 -cases 140 -engines mem,pebble,rocksdb -srv 20 -srvbig 5600 -big 5003 -exh 10 -conc 8000" % ctx.seed))
+            runs.append(("fresh", "-seed %d -stores 1200 -cases 140 -engines mem,pebble,rocksdb -srv 20 -srvbig 5600 -big 5003 -longrun 6500 -longrunall -exh 10 -conc 8000" % ctx.seed))
 
     all_mism, all_fail, total, hist_all, samples, distinct = [], [], 0, {}, [], set()
     engines = {}
@@ -619,6 +619,7 @@ def run(ctx):
              "S = the same iteration over the redis protocol against a live 1..4-partition in-process server (model: per-partition stores, merged cursor, COUNT split); "
              "KX/EX/G = the same with MATCH patterns from the rest of the glob syntax ({a,b} alternatives, [ab] [a-k] [!a] classes, **), direct oracle only; "
              "xpt = a store scanned by every command with 11 patterns of that syntax incl. wildcard-free alternatives (user_{1,3,5}, k{1,2}); "
+             "xlr = a 6500-key table in which only 4 keys match the pattern (runs of > MAX_BATCH_NUM non-matching keys; mem in quick, every engine in thorough); "
              "xsp = a store with runs of 29 non-matching names between matching ones (COUNT 1..5); "
              "q.* = concurrent leg: 8 goroutines iterate the same hash/set/zset (forward and reverse) at the same time, each with its own MATCH pattern and COUNT, "
              "6 more iterate three DIFFERENT sets/hashes/zsets of 1100 recognisable members with COUNT 1024/1500/2000/5000, and pages returned by RockDB.S/H/ZScan are held across a scan of another collection and compared with their copy, "
